@@ -51,6 +51,10 @@ class World:
         self.all_handles: List[Any] = []
         self.ncomp = 0
         self.step_no = 0
+        # C15: with VERIF_REUSE_OPS=1 one Operation object per (gate, operand kinds) is built once and
+        # applied again and again (to targets of different sizes, in different containers)
+        self.reuse_ops = os.environ.get("VERIF_REUSE_OPS") == "1"
+        self.op_cache: Dict[Any, Any] = {}
         nenv = max(envidx) if envidx else 0
         for e in range(1, nenv + 1):
             f = [i for i in self.order if envidx[i - 1] == e and kind[i - 1] == "F"][0]
@@ -127,13 +131,14 @@ class World:
         t = r.get("t", [])
         objs = [self.subs[i] for i in t]
         if a == "op1":
-            op = speclib.make_operation(r["g"], self.kind[t[0]])
+            op = self._op(("1", r["g"], self.kind[t[0]]), lambda: speclib.make_operation(r["g"], self.kind[t[0]]))
             return self._apply_op(en, op, t)
         if a == "opn":
-            op = speclib.make_operation(r["g"], "X")
+            op = self._op(("n", r["g"]), lambda: speclib.make_operation(r["g"], "X"))
             return self.handle_for(t[0]).apply_operation(op, *objs)
         if a == "opk":
-            op = speclib.make_kron_operation(list(r["g"]), [self.kind[i] for i in t])
+            kinds = [self.kind[i] for i in t]
+            op = self._op(("k", tuple(r["g"]), tuple(kinds)), lambda: speclib.make_kron_operation(list(r["g"]), kinds))
             return self.handle_for(t[0]).apply_operation(op, *objs)
         if a == "kraus":
             ops = [jnp.array(k) for k in speclib.kraus_set(r["g"])]
@@ -197,6 +202,13 @@ class World:
         if a == "invalid":
             return self._invalid(r["g"], en, t)
         raise KeyError(a)
+
+    def _op(self, key: Any, factory: Callable[[], Any]) -> Any:
+        if not self.reuse_ops:
+            return factory()
+        if key not in self.op_cache:
+            self.op_cache[key] = factory()
+        return self.op_cache[key]
 
     def _apply_op(self, en: str, op: Any, t: List[int]) -> Any:
         o = self.subs[t[0]]
